@@ -82,6 +82,11 @@ def real(tier, ev, fnd):
         for mode in ('complain', 'enforce'):
             tx = trees[b._replace(mode=mode)]
             fn, fx = cfgx.aa_files(tn), cfgx.aa_files(tx)
+            # ... and the files below the top level that define profile blocks (mappings/sshd/base, mappings/login/base:
+            # a sub-profile `shell`) -- "every profile block of every built profile" does not stop at the top directory
+            nested = lambda t: sorted(k[len('apparmor.d/'):] for k, e in t.items() if k.startswith('apparmor.d/') and e[0] == 'f' and '/' in k[len('apparmor.d/'):]
+                                      and not k.startswith(('apparmor.d/local/', 'apparmor.d/disable/')) and blocks_of(e))
+            fn, fx = fn + nested(tn), fx + nested(tx)
             if fn != fx:
                 fnd.report('%s-fileset-differs' % mode, 'profile file set differs between none and %s build of %s' % (mode, cfgx.tag(b)),
                            {'only_none': sorted(set(fn) - set(fx)), 'only_' + mode: sorted(set(fx) - set(fn))})
